@@ -53,7 +53,7 @@ func damageOnce(t *rapid.T, j *ref.Journal) string {
 	pos := func() int { return rapid.IntRange(0, len(ds)).Draw(t, "insertPos") }
 	acc := func() string { return rapid.SampledFrom(j.Accounts).Draw(t, "dAcc") }
 	com := func() string { return rapid.SampledFrom(j.Commodities).Draw(t, "dCom") }
-	kind := rapid.IntRange(0, 10).Draw(t, "damage")
+	kind := rapid.IntRange(0, 11).Draw(t, "damage")
 	switch kind {
 	case 0: // drop an open
 		if idx := indices(ds, ref.KOpen); len(idx) > 0 {
@@ -133,6 +133,44 @@ func damageOnce(t *rapid.T, j *ref.Journal) string {
 				ref.Directive{Kind: ref.KClose, Date: day + ref.Day(rapid.IntRange(0, 2).Draw(t, "cancelCloseOff")), Account: a})
 			return "close-cancelling-positions"
 		}
+	case 11: // a self-contained life cycle appended after the journal: open, book, zero, close, re-open, book again, close
+		// (accepted iff the second close finds zero positions; the commodity of the second round is the one held before or another)
+		a, src := "Assets:Reopened", "Equity:ReopenSrc"
+		if rapid.Bool().Draw(t, "reopenLiab") {
+			a = "Liabilities:Reopened"
+		}
+		for _, x := range j.Accounts {
+			if x == a || x == src {
+				return "none"
+			}
+		}
+		c1 := com()
+		c2 := c1
+		if rapid.IntRange(0, 2).Draw(t, "reopenOtherCom") == 0 {
+			c2 = com()
+		}
+		q1, q2 := DrawQty(t, 2, false), DrawQty(t, 2, false)
+		day := hi + 1
+		gap := func() ref.Day { return ref.Day(rapid.IntRange(0, 2).Draw(t, "reopenGap")) }
+		add := func(d ref.Directive) { j.Directives = append(j.Directives, d) }
+		add(ref.Directive{Kind: ref.KOpen, Date: day, Account: a})
+		add(ref.Directive{Kind: ref.KOpen, Date: day, Account: src})
+		add(ref.Directive{Kind: ref.KTrx, Date: day, Desc: "first round", Bookings: []ref.Booking{{Credit: src, Debit: a, Qty: q1, Com: c1}}})
+		day += gap()
+		add(ref.Directive{Kind: ref.KTrx, Date: day, Desc: "first round back", Bookings: []ref.Booking{{Credit: a, Debit: src, Qty: q1, Com: c1}}})
+		day += gap()
+		add(ref.Directive{Kind: ref.KClose, Date: day, Account: a})
+		day += 1 + gap()
+		add(ref.Directive{Kind: ref.KOpen, Date: day, Account: a})
+		add(ref.Directive{Kind: ref.KTrx, Date: day, Desc: "second round", Bookings: []ref.Booking{{Credit: src, Debit: a, Qty: q2, Com: c2}}})
+		if rapid.Bool().Draw(t, "reopenZeroAgain") {
+			day += gap()
+			add(ref.Directive{Kind: ref.KTrx, Date: day, Desc: "second round back", Bookings: []ref.Booking{{Credit: a, Debit: src, Qty: q2, Com: c2}}})
+		}
+		day += gap()
+		add(ref.Directive{Kind: ref.KClose, Date: day, Account: a})
+		j.Accounts = append(j.Accounts, a, src)
+		return "reopen-cycle"
 	case 9: // extra open at an arbitrary date
 		j.Directives = insertAt(ds, pos(), ref.Directive{Kind: ref.KOpen, Date: anyDate(), Account: acc()})
 		return "extra-open"
